@@ -27,12 +27,17 @@ where
     let mut y = Vec::with_capacity(totpoints);
     let window = make_window::<T>(totpoints, windowfunc);
     let mut sum = T::zero();
+    // Compensated (Kahan) summation, a plain running sum in f32 loses precision for long tables.
+    let mut comp = T::zero();
     for (x, w) in window.iter().enumerate().take(totpoints) {
         let val = *w
             * sinc(
                 (T::coerce(x) - T::coerce(totpoints / 2)) * T::coerce(f_cutoff) / T::coerce(factor),
             );
-        sum += val;
+        let corrected = val - comp;
+        let new_sum = sum + corrected;
+        comp = (new_sum - sum) - corrected;
+        sum = new_sum;
         y.push(val);
     }
     sum /= T::coerce(factor);
